@@ -72,6 +72,20 @@ def stray_hits_only(k, seed):
     return _df(rows), {'k': k, 'seed': seed, 'layout': 'stray_hits_only', 'ceilos': ['A'], 'rows': len(rows)}
 
 
+def strays_in_the_buffer_zone(k, seed):
+    """non-detections but for a few stray hits between the MSA and MSA + buffer (kept, 0 okta) and a few above MSA + buffer (cropped):
+    only the cropped ones count towards the high-cloud flag"""
+    import random
+    rng = random.Random(seed * 101 + k)
+    rows = [('A', -30.0 * t, np.nan, 0) for t in range(40)]
+    ts = rng.sample(range(40), 4)
+    for t in ts[:2]:
+        rows[t] = ('A', -30.0 * t, 5000.0 + rng.uniform(300, 1400), 1)
+    for t in ts[2:]:
+        rows[t] = ('A', -30.0 * t, 7000.0 + rng.uniform(0, 2000), 1)
+    return _df(rows), {'k': k, 'seed': seed, 'layout': 'strays_in_the_buffer_zone', 'ceilos': ['A'], 'rows': len(rows)}
+
+
 def okta_from_hits(data, idcol, cid, max_hits, max0, max8):
     from ampycloud import wmo
     sub = data[data[idcol] == cid]
@@ -85,7 +99,9 @@ def okta_from_hits(data, idcol, cid, max_hits, max0, max8):
 
 def check(k, seed):
     from ampycloud import wmo
-    if k % 14 == 4:
+    if k % 14 == 13:
+        df, desc = strays_in_the_buffer_zone(k, seed)
+    elif k % 14 == 4:
         df, desc = flat_deck_at_the_msa(k, seed)
     elif k % 14 == 11:
         df, desc = stray_hits_only(k, seed)
@@ -102,6 +118,8 @@ def check(k, seed):
         prms.setdefault('MAX_HITS_OKTA0', 3)
     if k % 14 == 4:
         prms = {'MSA': desc['H'], 'MSA_HIT_BUFFER': [0, 0, 500, 1500][(k // 14) % 4]}
+    if k % 14 == 13:
+        prms = {'MSA': 5000, 'MSA_HIT_BUFFER': 1500, 'MAX_HITS_OKTA0': 3}
     if k % 14 == 11:
         prms = {'MSA': [0, -30, 0, 5000][(k // 14) % 4], 'MAX_HITS_OKTA0': 3}
     fails = []
